@@ -210,7 +210,8 @@ def emit_constants(proj, cls, own, real='double', report=None):
             st = m.end()
             semi = X.Translator._stmt_end(clean, st)
             src_defs[m.group(2)] = (X.norm_type(m.group(1)), m.group(3) or '', clean[st:semi])
-    for nm, (typ, val) in ci.consts.items():
+    scalar_first = sorted(ci.consts.items(), key=lambda kv: 0 if (kv[1][0] == 'enum' or kv[1][0] in ('int', 'unsigned', 'unsigned int', 'bool', 'short', 'char', 'real', 'double', 'float', 'long long', 'unsigned long long', 'long')) else 1)
+    for nm, (typ, val) in scalar_first:
         if typ == 'enum' or typ in ('int', 'unsigned', 'unsigned int', 'bool', 'short', 'char'):
             if val is None and nm in src_defs:
                 val = src_defs[nm][2]
